@@ -8,6 +8,7 @@ import (
 
 	json "github.com/go-json-experiment/json"
 	"github.com/go-json-experiment/json/jsontext"
+	jsonv1 "github.com/go-json-experiment/json/v1"
 
 	"verifsim/core"
 	"verifsim/gen"
@@ -24,10 +25,14 @@ type ArshalOpts struct {
 	OmitZero      bool    `json:"omit_zero_struct_fields"`
 	Stringify     bool    `json:"stringify_numbers"`
 	WithFuncs     int     `json:"with_funcs"` // 0 none, 1 MarshalToFunc[PFunc], 2 MarshalFunc[PFunc], 3 both joined
+	Legacy        bool    `json:"v1_default_options"`
 }
 
 func (o *ArshalOpts) options() []json.Options {
 	var os []json.Options
+	if o.Legacy {
+		os = append(os, jsonv1.DefaultOptionsV1())
+	}
 	for _, x := range o.Enc.options() {
 		os = append(os, x)
 	}
@@ -67,6 +72,11 @@ func genArshalOpts(s *core.Stream) ArshalOpts {
 	o.OmitZero = s.Chance(1, 6)
 	o.Stringify = s.Chance(1, 8)
 	o.WithFuncs = s.Weighted(2, 2, 1, 1)
+	if s.Chance(1, 8) {
+		// v1 semantics: invalid UTF-8 and duplicate names are allowed
+		o.Legacy = true
+		o.Enc.AllowUTF8, o.Enc.AllowDup = true, true
+	}
 	return o
 }
 
